@@ -36,7 +36,7 @@ var tzOptions = []tzOpt{{"nil", nil}, {"UTC", time.UTC}, {"+05:30", zoneIST}, {"
 
 func genTripDesc(c *Ctx, p string, i int, rich bool) *gtfsrt.TripDescriptor {
 	d := &gtfsrt.TripDescriptor{}
-	d.TripId = optStr(c, p+"trip_id", true, fmt.Sprintf("T%d", i), "", fmt.Sprintf("trip with space %d", i))
+	d.TripId = optStr(c, p+"trip_id", true, fmt.Sprintf("T%d", i), "", fmt.Sprintf("trip with space %d", i), fmt.Sprintf("trïp-日本-%d", i))
 	d.RouteId = optStr(c, p+"route_id", rich, fmt.Sprintf("R%d", i), "")
 	d.DirectionId = optU32(c, p+"direction_id", rich, uint32(i%2), uint32(1-i%2), 7)
 	d.StartTime = optStr(c, p+"start_time", rich, fmt.Sprintf("0%d:08:09", i), "00:00:00", "25:10:05", "23:59:59")
@@ -91,7 +91,7 @@ func genStopTimeUpdates(c *Ctx, p string, salt int, rich bool) []*gtfsrt.TripUpd
 	if rich {
 		base = 2
 	}
-	n := pick(c, p+"n_stop_time_updates", base, 3)
+	n := []int{0, 1, 2, 3, 7}[pick(c, p+"n_stop_time_updates", base, 5)]
 	var out []*gtfsrt.TripUpdate_StopTimeUpdate
 	for j := 0; j < n; j++ {
 		q := fmt.Sprintf("%sstu%d.", p, j)
@@ -326,7 +326,7 @@ func init() {
 	register(&Check{
 		ID:    "C02",
 		Level: "model_checking",
-		Rule: "conflict-free messages from 2 trip + 2 vehicle descriptors in 6 entity slots (TU T1, VP V1, TU T2, VP V2, alert, id-less VP), 0-2 stop time updates, every optional wire field present/absent with boundary values (timestamps 0/1/2^31/DST-gap/2100, delays incl. int32 extremes, all enum values used by the library), x Timezone option {nil, UTC, +05:30, America/New_York, Europe/London}, x 3 entity orders; within k deviations (quick 2, thorough 3) of a sparse and a rich base; " +
+		Rule: "conflict-free messages from 2 trip + 2 vehicle descriptors in 6 entity slots (TU T1, VP V1, TU T2, VP V2, alert, id-less VP), 0-3 or 7 stop time updates, every optional wire field present/absent with boundary values (timestamps 0/1/2^31/DST-gap/2100, delays incl. int32 extremes, all enum values used by the library), x Timezone option {nil, UTC, +05:30, America/New_York, Europe/London}, x 3 entity orders; within k deviations (quick 2, thorough 3) of a sparse and a rich base; " +
 			"non-trivial = distinct (message bytes, zone) with >= 2 entities; oracle = reference interpretation written from the statement",
 		Assumptions: []string{"protobuf-go Marshal/Unmarshal is trusted", "messages outside the quantifier (coinciding pool entries, empty vehicle descriptor inside a trip update) are executed for crash freedom only", "the harness embeds time/tzdata"},
 		Scenarios: func(tier string) []*Scenario {
